@@ -61,17 +61,17 @@ type Signed struct {
 
 // DocOptions select the shape of a document to sign.
 type DocOptions struct {
-	SubFilters  []string // one per signature; the i-th signature lives in revision i
-	Pages       int      // default 1
-	XRefStream  bool
-	EOL         string
-	Placeholder int  // bytes reserved for /Contents (default 2600)
-	DocMDP      int  // >0: first signature is a certification with this P
-	DSS         bool // add a /DSS with the CA certificate and the CRL (as a last unsigned revision unless DSSSigned)
-	Hash        crypto.Hash
-	NoSignedAttrs bool // adbe.pkcs7.sha1 only
-	Marker      string // goes into page content
-	ExtraFields bool // an ordinary text field next to the signature fields
+	SubFilters    []string // one per signature; the i-th signature lives in revision i
+	Pages         int      // default 1
+	XRefStream    bool
+	EOL           string
+	Placeholder   int  // bytes reserved for /Contents (default 2600)
+	DocMDP        int  // >0: first signature is a certification with this P
+	DSS           bool // add a /DSS with the CA certificate and the CRL (as a last unsigned revision unless DSSSigned)
+	Hash          crypto.Hash
+	NoSignedAttrs bool   // adbe.pkcs7.sha1 only
+	Marker        string // goes into page content
+	ExtraFields   bool   // an ordinary text field next to the signature fields
 }
 
 const brPlaceholder = "[0 0 0 0                                 ]"
